@@ -10,4 +10,6 @@ var zzEntries = map[string]func(){
 	"ZZ_AUX_bmc":     ZZ_AUX_bmc,
 	"ZZ_AUX_step":    ZZ_AUX_step,
 	"ZZ_C07_bmc":     ZZ_C07_bmc,
+	"ZZ_C08_bmc":     ZZ_C08_bmc,
+	"ZZ_C09_bmc":     ZZ_C09_bmc,
 }
